@@ -141,6 +141,19 @@ func checkC09(c *Ctx) {
 	c.guard(p, "C09.guard", "coordinate with bit 127 set rejected", fpFrom, GuardSpec{ValAssumes: []ValAssume{{Name: "top bit (>>7)", Match: signBitVal("(*ecc/fourq.Fp).fromBytes"), Val: latInt(1)}}})
 	c.guardEachSite(p, "C09.guard", "both Fp components must decode", p.Func("ecc/fourq", "Fq", "fromBytes"), -1, latFalse, "(*ecc/fourq.Fp).fromBytes")
 	un := p.Func("ecc/fourq", "Point", "Unmarshal")
+	// the two points with x = 0 have one encoding each (sign bit clear), as for the other Edwards decoders
+	c.guard(p, "C09.guard", "x = 0 with sign bit set rejected", un, GuardSpec{
+		// (only the test made by the decoder itself: the curve-equation predicate uses isZero too)
+		Assumes: []Assume{{Name: "x.isZero() in Unmarshal", Result: -1, Val: latTrue, Match: func(_ ssa.CallInstruction, callee string, in *ssa.Function) bool {
+			return callee == "(*ecc/fourq.Fq).isZero" && in != nil && fname(in) == "(*ecc/fourq.Point).Unmarshal"
+		}}},
+		ValAssumes: []ValAssume{{Name: "sign bit (>>7)", Match: signBitVal("(*ecc/fourq.Point).Unmarshal"), Val: latInt(1)}}})
+	// only the bits that carry something else may be cleared before the coordinates are parsed
+	c.maskRule(p, "C09.mask", "only the sign bit of x (bit 7 of the last byte) is cleared before parsing", un, "[31]&=0x7F")
+	c.maskRule(p, "C09.mask", "only the sign bit of x is cleared before parsing", p.Func("sign/ed25519", "pointR1", "FromBytes"), "[31]&=0x7F")
+	c.maskRule(p, "C09.mask", "no input bit is cleared before parsing (the last byte is tested, not masked)", p.Func("ecc/goldilocks", "", "FromBytes"))
+	c.maskRule(p, "C09.mask", "only the three flag bits are cleared before parsing", p.Func("ecc/bls12381", "G1", "SetBytes"), "[0]&=0x1F")
+	c.maskRule(p, "C09.mask", "only the three flag bits are cleared before parsing", p.Func("ecc/bls12381", "G2", "SetBytes"), "[0]&=0x1F")
 	c.guard(p, "C09.guard", "y coordinate must decode", un, GuardSpec{Assumes: []Assume{calleeAssume(latFalse, -1, "(*ecc/fourq.Fq).fromBytes")}})
 	c.guard(p, "C09.guard", "decoded point must be on the curve", un, GuardSpec{Assumes: []Assume{calleeAssume(latFalse, -1, "(*ecc/fourq.Point).IsOnCurve")}})
 	sh := p.Func("dh/curve4q", "", "Shared")
